@@ -8,7 +8,7 @@ CONSTANTS
   PruneBatch = 2
   L2PerPrune = 2
   MinAge = TRUE
-  MaxSteps = 6
+  MaxSteps = 7
   EnableRevert = TRUE
   EnableInterrupts = TRUE
   FixPruneAtomicFloor = TRUE
